@@ -22,6 +22,8 @@ Inductive op :=
 | Extend (vs : list Z)
 | Iadd (vs : list Z)                      (* l += vs *)
 | Imul (n : Z)                            (* l *= n *)
+| ImulQ (p q : Z)                         (* l *= x for x = p/q given as a float / Fraction / Decimal (q > 0):
+                                             a number, but not an integer type *)
 | Insert (i : Z) (v : Z)
 | Pop (i : option Z)                      (* l.pop() / l.pop(i) *)
 | Remove (v : Z)
@@ -146,6 +148,9 @@ Section WithValidator.
         else let l' := imul l n in
              let added := skipn (length l) l' in
              ok l' (if nonempty added then [(I len, [], added)] else [])
+    | ImulQ p q =>                                         (* l.288-313: `value < 1` is decided, then super().__imul__
+                                                              raises TypeError in either branch; nothing was changed *)
+        raise TypeError l
     | Insert i v =>                                        (* l.390-408 *)
         let nidx := if i <? 0 then Z.max (i + len) 0 else Z.min i len in
         match vld v with
@@ -199,16 +204,29 @@ Section WithValidator.
     | Append _ | Insert _ _ => Ok (Some (len + 1))
     | Extend vs | Iadd vs => Ok (Some (len + zlen vs))
     | Imul n => Ok (Some (Z.max 0 (len * n)))
+    | ImulQ _ _ => Ok None                                  (* the guard compares a non-integer: see tlo_step *)
     | Pop _ | Remove _ => Ok (Some (Z.max (len - 1) 0))
     | Clear => Ok (Some 0)
     | Reverse | Sort _ _ => Ok None                          (* not overridden *)
     end.
 
-  Definition tlo_step (minlen : Z) (maxlen : option Z) (l : list Z) (o : op) : obs :=
+  Definition tlo_step0 (minlen : Z) (maxlen : option Z) (l : list Z) (o : op) : obs :=
     match announced l o with
     | Raise e => raise e l
     | Ok (Some n) => if len_ok minlen maxlen n then tl_step l o else raise TraitError l
     | Ok None => tl_step l o
+    end.
+
+  (* _validate_length(max(0, len(self) * value)) for a non-integer value p/q, q > 0 (l.678):
+     minlen <= max(0, len*p/q) <= maxlen, decided on integers *)
+  Definition qlen_ok (minlen : Z) (maxlen : option Z) (len p q : Z) : bool :=
+    let x := Z.max 0 (len * p) in
+    (minlen * q <=? x) && match maxlen with Some m => x <=? m * q | None => true end.
+
+  Definition tlo_step (minlen : Z) (maxlen : option Z) (l : list Z) (o : op) : obs :=
+    match o with
+    | ImulQ p q => if qlen_ok minlen maxlen (zlen l) p q then raise TypeError l else raise TraitError l
+    | _ => tlo_step0 minlen maxlen l o
     end.
 
   Fixpoint run (step : list Z -> op -> obs) (l : list Z) (ops : list op) : list (op * obs) :=
